@@ -77,6 +77,7 @@ pub struct Scen {
     modtap: bool,
     high_snr: bool,
     period: u64,
+    flip: usize,
     frames: AtomicU64,
     viol: Mutex<Vec<(String, J)>>,
     acc: Mutex<HashMap<u64, Acc>>,
@@ -375,7 +376,10 @@ impl LdpcDecoder for TapDecoder {
         let mut out = word;
         // scripted frame error so that the point terminates: flip systematic bit 0 in every period-th frame
         if fno % s.period == 0 {
-            out[0] ^= 1;
+            // (one more bit than the outer-code threshold of the run corrects)
+            for b in out.iter_mut().take(s.flip) {
+                *b ^= 1;
+            }
         }
         Ok(DecoderOutput { codeword: out, iterations: 1 })
     }
@@ -467,6 +471,13 @@ fn gen_config(rng: &mut Rng, idx: u64) -> Config {
             ils.push(Some(-c));
         }
     }
+    // degenerate shapes: a single row (columns = frame length) and a single column, forwards and backwards
+    for c in [n as isize, 1, (n / 2) as isize] {
+        if c >= 1 && n % (c as usize) == 0 {
+            ils.push(Some(c));
+            ils.push(Some(-c));
+        }
+    }
     let il = *rng.pick(&ils);
     Config { h, pattern, il, psk8 }
 }
@@ -491,6 +502,8 @@ fn run_config(l: &mut Local, cfg: &Config, modtap: bool, ebn0s: &[f32], frames_g
         let b = n_cw / p.len();
         (0..p.len()).any(|i| !p[i] && i * b < k)
     }) == Some(true);
+    // outer-code threshold: irrelevant to everything this property states, so it must not change anything observed here
+    let bch: u64 = if punct_sys_early || k < 5 { 0 } else { [0u64, 0, 1, 3, 0, 0][(idx % 6) as usize] };
     let (target, period) = if punct_sys_early { (frames_goal.max(1), 1u64) } else { (20u64, (frames_goal / 20).max(1)) };
     let desc = format!(
         "H {}x{} ({}), {}, puncturing {:?}, interleaver {:?}, Eb/N0 {:?}, {}",
@@ -514,6 +527,7 @@ fn run_config(l: &mut Local, cfg: &Config, modtap: bool, ebn0s: &[f32], frames_g
         modtap,
         high_snr: ebn0s.iter().all(|&e| e >= 30.0),
         period,
+        flip: bch as usize + 1,
         frames: AtomicU64::new(1),
         viol: Mutex::new(Vec::new()),
         acc: Mutex::new(HashMap::new()),
@@ -532,11 +546,11 @@ fn run_config(l: &mut Local, cfg: &Config, modtap: bool, ebn0s: &[f32], frames_g
     let built: Result<Result<Box<dyn Ber>, String>, String> = guard(|| {
         if modtap {
             if cfg.psk8 {
-                BerTest::<TapMod<Psk8>, TapFactory>::new(h.clone(), fac.clone(), cfg.pattern.as_deref(), cfg.il, target, 5, ebn0s, None, 0)
+                BerTest::<TapMod<Psk8>, TapFactory>::new(h.clone(), fac.clone(), cfg.pattern.as_deref(), cfg.il, target, 5, ebn0s, None, bch)
                     .map(|t| Box::new(t) as Box<dyn Ber>)
                     .map_err(|e| e.to_string())
             } else {
-                BerTest::<TapMod<Bpsk>, TapFactory>::new(h.clone(), fac.clone(), cfg.pattern.as_deref(), cfg.il, target, 5, ebn0s, None, 0)
+                BerTest::<TapMod<Bpsk>, TapFactory>::new(h.clone(), fac.clone(), cfg.pattern.as_deref(), cfg.il, target, 5, ebn0s, None, bch)
                     .map(|t| Box::new(t) as Box<dyn Ber>)
                     .map_err(|e| e.to_string())
             }
@@ -551,7 +565,7 @@ fn run_config(l: &mut Local, cfg: &Config, modtap: bool, ebn0s: &[f32], frames_g
                 max_iterations: 5,
                 ebn0s_db: ebn0s,
                 reporter: None,
-                bch_max_errors: 0,
+                bch_max_errors: bch,
             }
             .build()
             .map_err(|e| e.to_string())
@@ -605,10 +619,11 @@ fn run_config(l: &mut Local, cfg: &Config, modtap: bool, ebn0s: &[f32], frames_g
     }) == Some(true);
     if sc.viol.lock().unwrap().is_empty() && (!punct_sys || sc.all_unique.load(Ordering::SeqCst)) && (modtap || sc.high_snr) {
         for st in &stats {
-            if st.ldpc.bit_errors != st.ldpc.frame_errors || st.ldpc.frame_errors != target {
+            // (every scripted error frame carries bch + 1 wrong systematic bits)
+            if st.ldpc.bit_errors != (bch + 1) * st.ldpc.frame_errors || st.ldpc.frame_errors != target {
                 l.violation(
                     "the word recovered from the frame is not the systematic codeword of the message the simulator encoded",
-                    det().set("bit_errors", st.ldpc.bit_errors).set("frame_errors", st.ldpc.frame_errors).set("expected_each", target),
+                    det().set("bit_errors", st.ldpc.bit_errors).set("frame_errors", st.ldpc.frame_errors).set("expected_frame_errors", target).set("expected_bit_errors_per_error_frame", bch + 1),
                 );
                 break;
             }
@@ -723,7 +738,7 @@ fn run_config(l: &mut Local, cfg: &Config, modtap: bool, ebn0s: &[f32], frames_g
 }
 
 pub fn run(run: &mut Run) {
-    run.rule = "real BerTest engine with (a) a decoder tap injected through BerTestBuilder (real BPSK/8PSK, Eb/N0 40 dB and, for BPSK, 6 dB) and (b) a modulation tap TapMod<M> + decoder tap through BerTest::new (Eb/N0 40, 3 and 8 dB); codes: RA 12x24, 6x12, dense-tail 9x15, PEG 30x60 (made systematic), RA 15x35, RA 28x63; puncturing none / tail block / information block / two blocks with pattern lengths 3..9 dividing n_cw (incl. 6-of-7 and 8-of-9 whose ratio is not exact in floating point); interleaver none or +-{2,3,4,6} dividing n; EVERY frame of EVERY worker is checked on the worker thread: length, exact +0.0 at punctured positions, bits given to the modulator = interleave(puncture(c)) for a codeword c (harness' own inverse permutation, punctured part completed by solving H), decoder LLR at every kept position bit-identical to the demodulator's LLR of that bit, signs at 40 dB, sigma = sqrt(0.5/(rate*bps*EbN0)) to 1e-12, systematic codeword (engine's own bit-error count), n/n_cw/k/rate; noise = received - modulated: mean, variance, 4th moment, lag-1, I/Q correlation, I/Q variance equality, per-symbol-position variance/mean, all at z = 6.5, and the first frame's noise vector (normalised by sigma) must differ between all worker threads of all Eb/N0 points of the run; non-trivial = configuration with puncturing or interleaving".into();
+    run.rule = "real BerTest engine with (a) a decoder tap injected through BerTestBuilder (real BPSK/8PSK, Eb/N0 40 dB and, for BPSK, 6 dB) and (b) a modulation tap TapMod<M> + decoder tap through BerTest::new (Eb/N0 40, 3 and 8 dB); codes: RA 12x24, 6x12, dense-tail 9x15, PEG 30x60 (made systematic), RA 15x35, RA 28x63; puncturing none / tail block / information block / two blocks with pattern lengths 3..9 dividing n_cw (incl. 6-of-7 and 8-of-9 whose ratio is not exact in floating point); interleaver none or +-{2,3,4,6, 1, n/2, n} dividing n; outer-code threshold 0 (two thirds of the runs), 1 or 3 (the noise level must follow the reported rate whatever the threshold); EVERY frame of EVERY worker is checked on the worker thread: length, exact +0.0 at punctured positions, bits given to the modulator = interleave(puncture(c)) for a codeword c (harness' own inverse permutation, punctured part completed by solving H), decoder LLR at every kept position bit-identical to the demodulator's LLR of that bit, signs at 40 dB, sigma = sqrt(0.5/(rate*bps*EbN0)) to 1e-12, systematic codeword (engine's own bit-error count), n/n_cw/k/rate; noise = received - modulated: mean, variance, 4th moment, lag-1, I/Q correlation, I/Q variance equality, per-symbol-position variance/mean, all at z = 6.5, and the first frame's noise vector (normalised by sigma) must differ between all worker threads of all Eb/N0 points of the run; non-trivial = configuration with puncturing or interleaving".into();
     run.assumptions = vec![
         "statistical tests use z = 6.5 (two-sided tail 8e-11 per test); with a few thousand tests per run the false-alarm probability is below 1e-6 per run".into(),
         "expected bits per symbol come from the harness (BPSK 1, 8PSK 3), not from the library constant".into(),
